@@ -119,8 +119,13 @@ def check_c06(den, v):
         if bool(D["data"].get("VERILOG.primitive")) != E["primitive"]:
             bad("primitive-flag", name)
         # ports
+        if E.get("posports") is not None:
+            # never declared, instantiated by position: one unnamed port per position, shared by all instances
+            gotp = [(p["name"], p["dir"], p["width"], p["lower"]) for p in D["ports"]]
+            if gotp != [(None, "UNDEFINED", w, 0) for w in E["posports"]]:
+                bad("ports.by-position", "%s: %s expected unnamed ports of widths %s" % (name, gotp, E["posports"]))
         gp = {p["name"]: p for p in D["ports"]}
-        if len(gp) != len(D["ports"]) or set(gp) != set(E["ports"]):
+        if E.get("posports") is None and (len(gp) != len(D["ports"]) or set(gp) != set(E["ports"])):
             bad("ports.names", "%s: %s expected %s" % (name, [p["name"] for p in D["ports"]], sorted(E["ports"])))
             continue
         for pn, ep in E["ports"].items():
@@ -174,8 +179,9 @@ def check_c06(den, v):
                 bad("instance.reference-outside", "%s.%s" % (name, iname))
                 continue
             got = {}
+            bypos = den["defs"].get(i["ref"], {}).get("posports") is not None
             for pi, p in enumerate(rd["ports"]):
-                got[p["name"]] = [_t(b) for b in i["pins"][pi]] if pi < len(i["pins"]) else None
+                got[pi if bypos else p["name"]] = [_t(b) for b in i["pins"][pi]] if pi < len(i["pins"]) else None
             for pn, ebits in ei["pins"].items():
                 g = got.get(pn)
                 if g != [_t(b) for b in ebits]:
